@@ -1059,7 +1059,10 @@ where
                         .unwrap_or(trimmed)
                         .trim()
                         .strip_prefix("@jsx")
-                        .map(str::trim)
+                        // `@jsxImportSource`, `@jsxRuntime`, `@jsxFrag` are other annotations
+                        .filter(|rest| rest.starts_with(char::is_whitespace))
+                        .and_then(|rest| rest.split_whitespace().next())
+                        .filter(|name| Ident::verify_symbol(name).is_ok())
                 });
                 if let Some(pragma) = pragma {
                     self.pragma = Some(pragma.to_string());
